@@ -33,8 +33,10 @@ def battery(fqe, seed, tier):
         a = numpy.ascontiguousarray(numpy.asarray(arr))
         out[name] = hashlib.sha1(a.tobytes()).hexdigest()[:16] + f":{float(numpy.abs(a).sum()):.6g}"
     # (10, 5, 4): 252 x 210 coefficients, several 64 x 64 / 16 x 16 transpose tiles per thread; (12, 1, 6): 924 columns = 3 batches
+    # (6, 2, 2): 15 x 15 and (7, 3, 2): 35 x 21 determinants - odd string counts (slices of a loop over strings do not
+    # divide evenly among 2, 4, 8, 16 threads) in sectors of more than 128 determinants, for the 3-body route
     shapes = [(6, 3, 3), (11, 1, 5), (11, 5, 1), (5, 2, 3), (4, 4, 0), (4, 0, 0), (3, 3, 3), (10, 1, 2), (10, 2, 1), (1, 1, 0),
-              (10, 5, 4), (12, 1, 6)]
+              (10, 5, 4), (12, 1, 6), (6, 2, 2), (7, 3, 2)]
     if tier != "quick":
         shapes += [(12, 2, 6), (7, 3, 4), (9, 4, 1)]
     for norb, na, nb in shapes:
@@ -53,6 +55,14 @@ def battery(fqe, seed, tier):
                 h2[i, j, k, l] += v
                 h2[l, k, j, i] += v
             put(f"apply12:{tag}", w.apply(fqe.get_restricted_hamiltonian((h1, h2))).get_coeff(key))
+            if na + nb >= 3 or tier != "quick":
+                h3 = numpy.zeros((norb,) * 6, dtype=numpy.complex128)
+                for _ in range(24):
+                    ix = tuple(r.randint(0, norb, 6))
+                    v = float(r.randint(-2, 3))
+                    h3[ix] += v
+                    h3[ix[3:][::-1] + ix[:3][::-1]] += v
+                put(f"apply123:{tag}", w.apply(fqe.get_restricted_hamiltonian((h1, h2, h3))).get_coeff(key))
             g1 = r.randint(-2, 3, (2 * norb, 2 * norb)).astype(numpy.complex128)
             g1 = g1 + g1.T
             put(f"applygso:{tag}", w.apply(fqe.get_gso_hamiltonian((g1,))).get_coeff(key))
